@@ -36,7 +36,7 @@ import (
 
 func init() {
 	protocol.VerifSegTrace = c13Dispatch
-	register(&Prop{ID: "C13", Gen: genC13, Run: runC13, Timeout: 180 * time.Second})
+	register(&Prop{ID: "C13", Gen: genC13, Run: runC13, Timeout: 60 * time.Second})
 }
 
 // ---- trace collection, keyed by *Protocol
@@ -49,6 +49,8 @@ type c13Trace struct {
 	rel      int
 	waitSeen bool
 	stopped  bool
+	spin     bool          // the read loop waits for space although nothing is pending: it can never proceed
+	spinCh   chan struct{} // closed once when spin is detected
 }
 
 var c13Traces sync.Map // *protocol.Protocol -> *c13Trace
@@ -70,6 +72,14 @@ func c13Dispatch(p *protocol.Protocol, kind string, size, pending, limit int) {
 			t.events = append(t.events, e)
 		}
 		t.waitSeen = true
+		if t.acc == t.rel && !t.spin {
+			// everything accepted so far has been released, so no release can ever make room:
+			// the back-pressure loop will poll forever. Report instead of waiting for a timeout.
+			t.spin = true
+			if t.spinCh != nil {
+				close(t.spinCh)
+			}
+		}
 	case "rel":
 		t.events = append(t.events, fmt.Sprintf("r:%d:%d", size, pending))
 		t.rel++
@@ -220,7 +230,7 @@ func runC13Lim(f []string) string {
 	connC.out.sink, connS.out.sink = true, true
 	connC.out.maxBuf, connS.out.maxBuf = 1<<20, 1<<20 // bounded "socket buffers": a stalled reader blocks the writer
 
-	tr := &c13Trace{}
+	tr := &c13Trace{spinCh: make(chan struct{})}
 	tr.cond = sync.NewCond(&tr.mu)
 	handled := map[byte]*int{'c': new(int), 's': new(int)}
 	var hmu sync.Mutex
@@ -317,8 +327,11 @@ func runC13Lim(f []string) string {
 		close(done)
 	}()
 	var err error
+	spun := false
 	select {
 	case <-done:
+	case <-tr.spinCh:
+		spun = true
 	case err = <-client.errCh:
 	case err = <-server.errCh:
 	case err = <-sendErr:
@@ -342,10 +355,14 @@ func runC13Lim(f []string) string {
 		ev = "-"
 	}
 	h := strconv.Itoa(rel)
-	if err != nil {
+	if err != nil || spun {
 		h = "-"
 	}
-	return fmt.Sprintf("err=%s handled=%s trace=%s", g4ErrClass(err), h, ev)
+	ec := g4ErrClass(err)
+	if spun {
+		ec = "spin"
+	}
+	return fmt.Sprintf("err=%s handled=%s trace=%s", ec, h, ev)
 }
 
 func runC13Grow(f []string) string {
@@ -478,9 +495,16 @@ func genC13(r *Rand, n int, tier string, emit func(string)) {
 		plan := Pick(r, "-", "-", "65543", "4096,7", "1000", "8,65535")
 		seed := r.Intn(1 << 30)
 		ms := func(t int) string { return fmt.Sprintf("%d.%d", t, r.Intn(1000)) }
-		switch r.Intn(10) {
+		pickCase := r.Intn(10)
+		if tier == "race" && (pickCase == 3 || pickCase == 4) {
+			pickCase = 6 // the race-detector run leaves out the multi-MiB block-fetch batches
+		}
+		switch pickCase {
 		case 0, 1, 2: // chain-sync NtN client, pipelined RequestNext, fast server
 			nm := Pick(r, 1, 3, 8, 20, 40, 80)
+			if tier == "race" {
+				nm = Pick(r, 1, 3, 6)
+			}
 			steps := []string{}
 			over := r.Chance(1, 8)
 			for k := 0; k < nm; k++ {
@@ -544,6 +568,14 @@ func genC13(r *Rand, n int, tier string, emit func(string)) {
 					sz = 2
 				}
 				steps = append(steps, "s:0:"+ms(sz))
+			}
+			if lim >= 2 && r.Chance(1, 2) {
+				// after a mixed queue, a message of exactly the limit: it can only be admitted once
+				// every earlier message has been released with its own size (FIFO accounting)
+				steps = append(steps, "s:0:"+ms(lim))
+				if r.Bool() {
+					steps = append(steps, "s:0:"+ms(Pick(r, 2, lim/2+1, lim)))
+				}
 			}
 			emit(fmt.Sprintf("lim g%d %s %s %d %s", lim, gate, Pick(r, "-", "1", "3,7", "65543"), seed, strings.Join(steps, " ")))
 		default: // the 16 MiB read-buffer bound
